@@ -91,7 +91,9 @@ class Ctl:
 
 
 def get_ctl(obj):
-    return obj.__dict__['_ctl']
+    # (a copy that did not carry the harness's own unregistered `__dict__` entry over simply gets a fresh controller)
+    c = obj.__dict__.get('_ctl')
+    return c if c is not None else attach_ctl(obj)
 
 
 def attach_ctl(obj):
@@ -214,7 +216,7 @@ def make_scripted(fsic, spec, bases=None, extra_attrs=None):
         bases = (fsic.BaseModel,)
 
     def seam_call(self, hook, t, kw):
-        ctl = self.__dict__['_ctl']
+        ctl = get_ctl(self)
         n = len(self.__dict__['span'])
         tn = t + n if t < 0 else t
         key = f'{hook}:{tn}'
@@ -306,7 +308,7 @@ def make_probed(fsic, base_cls, check=None):
     """Subclass of a parser-built class whose seams log to the controller and then run the real code."""
 
     def log_call(self, hook, t, kw, fn):
-        ctl = self.__dict__['_ctl']
+        ctl = get_ctl(self)
         n = len(self.__dict__['span'])
         tn = t + n if t < 0 else t
         key = f'{hook}:{tn}'
